@@ -144,7 +144,10 @@ def generate(rng, n, tier, stats):
                 i = rng.randrange(len(dims)); ax = ds.axes[i]
                 kk = rng.choice(['i', 'f', 'O']); labs = rand_labels(rng, ax.size, kk, 'shuf') if ax.size <= 6 else None
                 if labs is None: continue
-                op = ['set_axis', dims[i] if byname(i) else i, labs, kk, next(fresh) if rng.random() < 0.4 else None]
+                u_ = rng.random()
+                # the new name: none, a fresh one, the axis' own, or (refused) the name of another dimension
+                nm_ = next(fresh) if u_ < 0.35 else dims[i] if u_ < 0.42 else dims[(i + 1) % len(dims)] if (u_ < 0.52 and len(dims) > 1) else None
+                op = ['set_axis', dims[i] if byname(i) else i, labs, kk, nm_]
                 loose = [d_ for d_ in ds.dims if not any(d_ in dict.__getitem__(ds, k_).dims for k_ in ds.keys())]
                 # ds = ds.set_axis(..., inplace=False): the same, on a copy (a copy is built from the variables: it does not carry
                 # the axes that were appended directly and that no variable uses, so the variant is kept for datasets without such axes)
